@@ -315,7 +315,7 @@ pub fn generate(tier: &str, seed: u64, shard: u64, nshards: u64, path: &str) -> 
     quiet_panics();
     let mut t = Trace::create(path);
     let mut rng = Rng::new(seed ^ shard.wrapping_mul(0x85EBCA6B) ^ 2002);
-    let n = (if tier == "thorough" { 24000 } else { 480 }) / nshards as usize + 1;
+    let n = (if tier == "thorough" { 96000 } else { 480 }) / nshards as usize + 1;
     let mut items = 0;
     for _ in 0..n {
         items += run_one(&mut rng, &mut t, tier);
